@@ -227,3 +227,39 @@ Print Assumptions c10_backoff_client_frame.
 Example c10_backoff_example : ltac:(let t := type of backoff_example in exact t).
 Proof. exact backoff_example. Qed.
 Print Assumptions c10_backoff_example.
+
+(* ---- "the failure is noticed": a stalled connection is left by a deadline expiry ----
+   c10_ok demands of every recorded history that, with a PauseTimeout, each conn.Read inside
+   the CONNACK or inside a packet carries a read deadline (HistChecks.reads_armed); this is
+   the same statement about the model of the read routine, for any reader state and any
+   connection script (they are also C13's, where a hostile broker stalls on purpose). *)
+From Coq Require Import List.
+From MQ Require Import Reader ReaderProofs ArmedReads.
+
+(* peekPacket: apart from the idle wait for the first byte of a packet, every conn.Read of the
+   call -- each remaining-length byte, the payload, retries after an expiry with progress -- is
+   armed. *)
+Theorem c10_peek_packet_armed : forall s r s', peek_packet true s = (r, s') ->
+  rcap s' = rcap s /\
+  exists first rest,
+    rlog s' = rest ++ first ++ rlog s /\ Forall armed rest /\
+    (first = [] \/ (rbuf s = [] /\ rerr s = None /\ first = [(rarmed s, rcap s)])) /\
+    ((forall e p, r <> PkErr e p) -> r <> PkBrokerTerm -> rarmed s' = false) /\
+    (rarmed s' = false \/ (rarmed s' = rarmed s /\ rest = [])).
+Proof. exact peek_packet_armed. Qed.
+Print Assumptions c10_peek_packet_armed.
+
+Theorem c10_peek_packet_buffered : forall s r s',
+  peek_packet true s = (r, s') -> rbuf s <> [] -> armed_ext s s'.
+Proof. exact peek_packet_buffered_armed. Qed.
+Print Assumptions c10_peek_packet_buffered.
+
+Theorem c10_discard_armed : forall s n r s',
+  client_discard true s n = (r, s') -> armed_ext s s' /\ rarmed s' = false.
+Proof. exact client_discard_armed. Qed.
+Print Assumptions c10_discard_armed.
+
+Theorem c10_read_all_armed : forall s size r s',
+  read_all true s size = (r, s') -> armed_ext s s' /\ rarmed s' = false.
+Proof. exact read_all_armed. Qed.
+Print Assumptions c10_read_all_armed.
